@@ -1,7 +1,7 @@
 (* C13 — deploy status counts are exact and in-progress markers are cleaned up.
    This file contains only the property theorems. *)
 From Coq Require Import List String ZArith.
-From Verif Require Import Calcium.DeployStatus Calcium.DeployStatusProofs.
+From Verif Require Import Calcium.DeployStatus Calcium.DeployStatusProofs Calcium.DecrLoop Calcium.DecrLoopProofs.
 Local Open Scope Z_scope.
 
 (* For both backends, every deployment (any plan with distinct nodes and
@@ -42,3 +42,21 @@ Theorem C13_final : forall b ident plan st0 cs a st,
   forall n, status st n = recorded st n + (status st0 n - recorded st0 n).
 Proof. exact C13_final_thm. Qed.
 Print Assumptions C13_final.
+
+(* The etcd backend's "record + decrement" is a compare-value retry loop of
+   several etcd requests (meta/etcd.go:BatchCreateAndDecr).  For any number n of
+   concurrent callers on one marker holding k, any interleaving of their
+   requests: when all are done the marker holds k - n and exactly n records were
+   written (no lost or duplicated decrement) - so the loop may be treated as one
+   atomic step, as C13_bounds does. *)
+Theorem C13_etcd_decrement_exact : forall k n sched,
+  let s := drun (dstart k n) sched in
+  forallb is_done (DecrLoop.threads s) = true ->
+  DecrLoop.marker s = k - Z.of_nat n /\ added s = Z.of_nat n.
+Proof. exact decr_exact. Qed.
+Print Assumptions C13_etcd_decrement_exact.
+
+(* ... and the loop terminates under every schedule: at most n*(n+2) requests in total *)
+Theorem C13_etcd_decrement_terminates : forall k n sched, (executed (dstart k n) sched <= n * (n + 2))%nat.
+Proof. exact requests_bounded. Qed.
+Print Assumptions C13_etcd_decrement_terminates.
